@@ -273,7 +273,13 @@ pub fn run_once(case: &ConcCase, choices: &[u8]) -> Result<Outcome, Violation> {
                                     log.joins.push((&*ents).join().collect());
                                 }
                                 COp::JoinProbe => {
-                                    let j: Vec<Entity> = (&*ents).join().collect();
+                                    // sequential and parallel flavour of the entity join alternate
+                                    let j: Vec<Entity> = if (tid + k) % 2 == 0 {
+                                        (&*ents).join().collect()
+                                    } else {
+                                        use specs::rayon::iter::ParallelIterator;
+                                        (&*ents).par_join().collect()
+                                    };
                                     for e in &j {
                                         log.joined_probes.push((*e, ents.is_alive(*e)));
                                     }
@@ -372,6 +378,13 @@ pub fn run_once(case: &ConcCase, choices: &[u8]) -> Result<Outcome, Violation> {
             }
         }
     }
+    // C17 under contention: nothing is recycled before maintain, so the free list only shrinks and a
+    // never-used index may be taken only once it is exhausted
+    let fresh = all_created.iter().filter(|e| e.id() as usize >= n_init + n_free).count();
+    let expected_fresh = all_created.len().saturating_sub(n_free);
+    ensure!("C17", "fresh-index-while-free", fresh == expected_fresh,
+        "{} entities were created with {} indices on the free list, but {} of them got a never-used index (expected {}): created {:?} ({})",
+        all_created.len(), n_free, fresh, expected_fresh, all_created, sched_desc());
     // nothing ran before maintain
     ensure!("C09", "ran-before-maintain", exec_log.lock().unwrap().is_empty(), "lazy closures ran before maintain");
     world.maintain();
@@ -609,8 +622,16 @@ fn c10_stress(ctx: &ShardCtx) -> ShardResult {
                             for k in 0..per {
                                 if k % 16 == 5 {
                                     // whatever the entity join delivers is alive and can be deleted
-                                    for e in (&*ents).join() {
-                                        ok &= ents.is_alive(e);
+                                    if k % 32 == 5 {
+                                        for e in (&*ents).join() {
+                                            ok &= ents.is_alive(e);
+                                        }
+                                    } else {
+                                        use specs::rayon::iter::ParallelIterator;
+                                        let all: Vec<Entity> = (&*ents).par_join().collect();
+                                        for e in all {
+                                            ok &= ents.is_alive(e);
+                                        }
                                     }
                                 }
                                 match (k + t) % 5 {
@@ -707,6 +728,28 @@ fn c10_stress(ctx: &ShardCtx) -> ShardResult {
 
 fn stress_replay(_: &Value) -> Verdict {
     Err(Violation::new("INFRA", "not-replayable", "stress runs on real threads are not replayable from a file; re-run the check"))
+}
+
+/// C17 under concurrent creation: the same programs and schedules, judged by the recycling rule only.
+pub fn c17_subs() -> Vec<SubCheck> {
+    vec![
+        SubCheck {
+            name: "concurrent-exhaustive",
+            shards: |t: Tier| t.pick(4, 8),
+            run: c10_exhaustive,
+            replay: c10_replay,
+            rule: "the 30 small concurrent programs of C10, all schedules with at most 2 / 3 preemptions: the number of creations that received a never-used index must equal max(0, creations - free-list length) (nothing is recycled before maintain, so a fresh index is legitimate only once the free list is exhausted)",
+            exe_env: None,
+        },
+        SubCheck {
+            name: "concurrent-random",
+            shards: |t: Tier| t.pick(4, 8),
+            run: c10_random,
+            replay: c10_replay,
+            rule: "generated concurrent programs x generated schedules (as C10), same recycling rule; non-trivial = >= 2 creating threads and a preemption inside a load..CAS window",
+            exe_env: None,
+        },
+    ]
 }
 
 pub fn c10() -> Property {
